@@ -1,6 +1,8 @@
 (* proofs/TrellisDDProofs.v -- lemmas about model/TrellisDD.v (delete_detached). *)
 From Coq Require Import List NArith Bool Lia.
-From SV Require Import lib.Bytes gen.GenClean model.TrellisDD.
+From SV Require Import lib.Bytes.
+From SV Require Import gen.GenClean.
+From SV Require Import model.TrellisDD.
 Import ListNotations.
 Open Scope N_scope.
 
